@@ -1,6 +1,8 @@
 """C01 — a pool never loses, duplicates or leaks connection slots, whatever the outcome.
 
-Correspondence: every history (requests with a per-ATTEMPT fault script, ways of disposing of the
+Correspondence: every history (requests with a per-ATTEMPT fault script — outcomes of connect / send / recv,
+and failures outside the I/O steps: before the checkout (invalid timeout, file-like body that cannot be
+rewound) and between two attempts (the wait raises) —, ways of disposing of the
 response, pool.close()) is run on the real `HTTPConnectionPool` over the in-memory network
 (`harness/net.py`) and on `U3.Pool.step` (driver `pool`); per op the per-socket event trace
 (connect / send / recv / close, `_put_conn` calls), the queue content and the result class are
@@ -15,6 +17,7 @@ from __future__ import annotations
 
 import errno
 import gc
+import io
 import itertools
 import socket
 import sys
@@ -30,12 +33,21 @@ PROXY = ("proxy", 3128)
 
 
 def att(connect="ok", send="ok", head=None, body=0, stray=0, after="silent", seg=0, chunks=None, trailers=(), hold=0,
-        smuggle=False):
+        smuggle=False, pre="ok", wait="ok"):
     """one attempt of the environment script.  `chunks`: chunk sizes (each 1..15, summing up to `body`) of a
     `Transfer-Encoding: chunked` reply, `trailers`: content lengths of its trailer lines, `hold`: the last `hold`
     bytes of what follows the head (body / chunk framing / trailer section / stray bytes) are held back by the server
-    and only delivered when the next request arrives on that connection (before that request's own reply)"""
+    and only delivered when the next request arrives on that connection (before that request's own reply).
+    `pre`: what rewinding a file-like request body does at the entry of this urlopen invocation ("ok" / "unrewind":
+    `seek()` raises OSError), consulted only when the invocation has a recorded body position.  `wait`: what the wait
+    after this attempt's response does when urlopen retries / redirects it and it carries `Retry-After` ("ok":
+    `Retry-After: 0`; "invalid": `Retry-After: soon` -> InvalidHeader; "intr": `Retry-After: 1` and the patched
+    `time.sleep` raises the injected KeyboardInterrupt)"""
     a = {"connect": connect, "send": send, "head": head, "body": body, "stray": stray, "after": after, "seg": seg}
+    if pre != "ok":
+        a["pre"] = pre
+    if wait != "ok":
+        a["wait"] = wait
     if chunks is not None:
         a["chunks"] = list(chunks)
         a["trailers"] = list(trailers)
@@ -67,6 +79,13 @@ OUTCOMES = {
     "302-close": att(head=hd(302, close=True, loc=True), body=2, after="fin"),
     "500": att(head=hd(500), body=3),
     "503-ra": att(head=hd(503, ra=True), body=3),
+    "503-ra-bad": att(head=hd(503, ra=True), body=3, wait="invalid"),
+    "503-ra-intr": att(head=hd(503, ra=True), body=3, wait="intr"),
+    "302-ra": att(head=hd(302, loc=True, ra=True), body=2),
+    "302-ra-bad": att(head=hd(302, loc=True, ra=True), body=2, wait="invalid"),
+    "302-ra-intr": att(head=hd(302, loc=True, ra=True), body=2, wait="intr"),
+    "303": att(head=hd(303, loc=True), body=2),
+    "ok-unrewind": att(head=hd(), body=5, pre="unrewind"),
     "conn-refused": att(connect="refused"),
     "conn-timeout": att(connect="timeout"),
     "conn-nameres": att(connect="nameres"),
@@ -105,6 +124,19 @@ REQCFGS = [
     dict(retries=2, preload=False, release=True),
     dict(retries=1, preload=True, release=False),
 ]
+# per-request keywords that make `urlopen` fail outside the I/O steps of an attempt: `body="file"` a file-like body
+# (rewound at every retry / redirect hop; `seek()` fails where the script says `pre="unrewind"`), `bodypos=True` the
+# caller passes `body_pos=0` (the first invocation rewinds, too), `badtimeout=True` passes `timeout=-1` (rejected by
+# `Timeout`: ValueError, the caller's own argument error)
+EXTRA_KW = [
+    dict(body="file"),
+    dict(body="file", bodypos=True),
+    dict(badtimeout=True),
+    dict(body="file", badtimeout=True),
+]
+# outcomes after which urlopen goes on to another invocation (given budget), and the failures between the attempts
+HOP_OUTCOMES = ["302", "302-close", "302-ra", "303", "503-ra", "conn-refused", "recv-reset", "send-reset"]
+WAIT_FAILURES = ["503-ra-bad", "503-ra-intr", "302-ra-bad", "302-ra-intr"]
 
 # ------------------------------------------------------------------ class names (as in U3.Gen.Pool)
 
@@ -186,6 +218,9 @@ def split_reply(rid: int, j: int, a: dict, method: str):
     return head + post[:len(post) - hold], post[len(post) - hold:]
 
 
+RETRY_AFTER = {"ok": "0", "invalid": "soon", "intr": "1"}
+
+
 def build_reply(rid: int, j: int, a: dict, method: str):
     """(head bytes, body bytes, stray bytes, model head token)"""
     h = a["head"]
@@ -209,7 +244,7 @@ def build_reply(rid: int, j: int, a: dict, method: str):
     if h["loc"]:
         lines.append("Location: /r%d" % rid)
     if h["ra"]:
-        lines.append("Retry-After: 0")
+        lines.append("Retry-After: " + RETRY_AFTER[a.get("wait", "ok")])
     head = ("\r\n".join(lines) + "\r\n\r\n").encode()
     tok = "%d:%d:%s:%d:%d:%d" % (h["status"], int(h["close"]), "~" if cl is None else str(cl), int(h["loc"]), int(h["ra"]),
                                  int(is_chunked(a)))
@@ -220,7 +255,8 @@ def attempt_token(rid, j, a, method):
     head, body, stray, tok = build_reply(rid, j, a, method)
     trailers = [len(t) for t in trailer_lines(a)]
     return ",".join([a["connect"], a["send"], tok, str(max(len(head), 1)), enc(body), enc(stray), a["after"], str(a["seg"]),
-                     enc(bytes(a.get("chunks") or [])), enc(bytes(trailers)), str(a.get("hold", 0))])
+                     enc(bytes(a.get("chunks") or [])), enc(bytes(trailers)), str(a.get("hold", 0)),
+                     a.get("pre", "ok"), a.get("wait", "ok")])
 
 
 _CTX = []
@@ -237,6 +273,21 @@ def shared_ssl_context():
 
 class Interrupt(KeyboardInterrupt):
     """the injected BaseException (a KeyboardInterrupt, so that nothing can mistake it)"""
+
+
+class ScriptBody(io.BytesIO):
+    """a file-like request body: `tell()` works, `seek()` raises OSError at the urlopen invocations whose attempt
+    record says `pre="unrewind"` (a body that cannot be rewound for that hop)"""
+
+    def __init__(self, world):
+        super().__init__(b"data")
+        self.world = world
+
+    def seek(self, pos, whence=0):
+        a = self.world.attempt
+        if a is not None and a.get("pre", "ok") == "unrewind":
+            raise OSError(errno.ESPIPE, "Illegal seek")
+        return super().seek(pos, whence)
 
 
 class World:
@@ -266,6 +317,9 @@ class World:
         self.sent_body = {}          # (rid, j) -> body bytes sent for that attempt
         self.last_attempt = {}       # rid -> j of the last attempt started
         self.sock_history = {}       # sid -> description of the previous reply on that socket
+        self.inv_conn = False        # the urlopen invocation now running has taken a connection out of the pool
+        self.put_without_checkout = False   # `_put_conn(None)` on an open pool by an invocation that took nothing
+        self.sleeps = []
         net = self.net
         orig_log = net.log
 
@@ -279,7 +333,8 @@ class World:
                     detached = [rid for rid, r in self.resps.items()
                                 if r is not None and r._connection is None and r._fp is not None
                                 and hasattr(r._fp, "isclosed") and not r._fp.isclosed()]
-                    self.bound_sig = "block-bound-exceeded" + (":unread-response-after-release" if detached else "")
+                    self.bound_sig = "block-bound-exceeded" + (":put-without-checkout" if self.put_without_checkout else
+                                                               ":unread-response-after-release" if detached else "")
         net.log = log
         net.connect_hook = self.on_connect
         net.send_hook = self.on_send
@@ -415,6 +470,7 @@ class World:
         world = self
         nconn = [0]
         orig_new, orig_put, orig_open, orig_make = pool._new_conn, pool._put_conn, pool.urlopen, pool._make_request
+        orig_get = pool._get_conn
 
         def new_conn():
             c = orig_new()
@@ -424,10 +480,18 @@ class World:
 
         def put_conn(conn):
             world.net.events.append(("put", None if conn is None else conn._vid))
+            if conn is None and not world.inv_conn and pool.pool is not None:
+                world.put_without_checkout = True
             return orig_put(conn)
+
+        def get_conn(*a, **kw):
+            c = orig_get(*a, **kw)
+            world.inv_conn = True
+            return c
 
         def urlopen(*a, **kw):
             world.begin_attempt()
+            world.inv_conn = False
             return orig_open(*a, **kw)
 
         def make_request(*a, **kw):
@@ -437,7 +501,16 @@ class World:
             return r
 
         pool._new_conn, pool._put_conn, pool.urlopen, pool._make_request = new_conn, put_conn, urlopen, make_request
+        pool._get_conn = get_conn
         return pool
+
+    def sleep(self, seconds):
+        """`time.sleep` as seen from urllib3.util.retry: recorded, never slept; raises the injected interrupt when the
+        attempt whose response urlopen is waiting on says so"""
+        self.sleeps.append(seconds)
+        a = self.attempt
+        if a is not None and a.get("wait", "ok") == "intr":
+            raise self.interrupt()
 
     def begin_attempt(self):
         if self.script:
@@ -493,9 +566,10 @@ def req_line(rid, op, script_tokens):
     rel = op["preload"] if op.get("release") is None else op["release"]
     ret = "~" if op["retries"] is False else str(op["retries"])
     method = op.get("method", "GET")
-    return "req %d %s %d %d %d %d %d %s" % (rid, ret, int(op["preload"]), int(rel), int(op.get("redirect", True)),
-                                              int(method != "POST"), int(method == "HEAD"),
-                                              ";".join(script_tokens) if script_tokens else "-")
+    ext = "%d%d%d" % (int(op.get("body") == "file"), int(bool(op.get("bodypos"))), int(bool(op.get("badtimeout"))))
+    return "req %d %s %d %d %d %d %d %s %s" % (rid, ret, int(op["preload"]), int(rel), int(op.get("redirect", True)),
+                                                 int(method != "POST"), int(method == "HEAD"), ext,
+                                                 ";".join(script_tokens) if script_tokens else "-")
 
 
 def how_token(how):
@@ -536,15 +610,16 @@ def run_history(case, res, check_c01=True, check_c03=False, pid="C01"):
     resps = w.resps       # rid -> response
     hows = {}             # rid -> list of disposal kinds applied
     saved_time = uretry.time
-    sleeps = []
-    uretry.time = RetryTime(sleep=lambda t: sleeps.append(t), time=saved_time.time, monotonic=saved_time.monotonic)
+    uretry.time = RetryTime(sleep=w.sleep, time=saved_time.time, monotonic=saved_time.monotonic)
 
     def fail(sig, what):
         failures.append(Failure(signature=sig, what=what, case=case))
 
-    def check_exc(e, where):
+    def check_exc(e, where, op=None):
         if isinstance(e, HTTPError):
             return
+        if type(e) is ValueError and op is not None and op.get("badtimeout"):
+            return       # the caller's own argument error (`timeout=-1`), not a failure of the request
         if isinstance(e, Interrupt):
             if getattr(e, "token", None) not in w.armed:
                 fail("foreign-interrupt", f"{where}: an Interrupt that was not injected")
@@ -575,6 +650,13 @@ def run_history(case, res, check_c01=True, check_c03=False, pid="C01"):
                             kw["release_conn"] = op["release"]
                         if cfg["proxy"] == "forward":
                             kw["assert_same_host"] = False
+                        if op.get("body") == "file":
+                            kw["body"] = ScriptBody(w)
+                            kw["headers"] = {"Content-Length": "4"}
+                            if op.get("bodypos"):
+                                kw["body_pos"] = 0
+                        if op.get("badtimeout"):
+                            kw["timeout"] = -1
                         try:
                             r = pool.urlopen(method, w.base + "/r%d" % rid, **kw)
                             resps[rid] = r
@@ -604,7 +686,7 @@ def run_history(case, res, check_c01=True, check_c03=False, pid="C01"):
                                     check_body(w, rid, r._body or b"", method, fail)
                         except BaseException as e:   # noqa: BLE001 - the class is the observation
                             result = "raise:" + cls_name(type(e))
-                            check_exc(e, f"request {rid}")
+                            check_exc(e, f"request {rid}", op)
                             if w.fired() and not isinstance(e, Interrupt):
                                 fail("interrupt-replaced", f"request {rid}: injected interrupt replaced by {type(e).__name__}")
                             del e
@@ -703,6 +785,15 @@ def quiescence_oracle(w, case, resps, hows, fail, res):
     ids = [id(c) for c in items if c is not None]
     if len(ids) != len(set(ids)):
         fail("connection-queued-twice", "the same connection object is in the queue twice")
+    if cfg["block"]:
+        # block=True: the free slots and the connections that responses still hold never add up to more than N
+        # (theorem `C01_block_slots_exact`: on the model they add up to exactly N); one slot too many is one
+        # connection too many as soon as enough requests are outstanding
+        holding = {id(r._connection) for r in resps.values() if r is not None and getattr(r, "_connection", None) is not None}
+        if len(items) + len(holding) > n:
+            fail("slot-surplus" + (":put-without-checkout" if w.put_without_checkout else ""),
+                 f"block=True maxsize={n}: the pool offers {len(items)} free slots while {len(holding)} responses "
+                 f"still hold their connections")
     unsettled = [rid for rid, r in resps.items() if not (set(hows.get(rid, [])) & SETTLING)]
     if unsettled:
         res.bump("not_quiescent")
@@ -773,13 +864,20 @@ class C01(Prop):
     rule = ("histories of requests on one pool: per ATTEMPT one outcome of the alphabet {2xx/204/3xx/5xx keep-alive or "
             "close, short body then silence/EOF/reset/interrupt, stray bytes, chunked reply (complete / trailer section "
             "held back), connect refused/timeout/name-resolution/"
-            "interrupt, send EPIPE/ECONNRESET/EIO/interrupt, receive timeout/reset/EOF/garbage/interrupt} x "
+            "interrupt, send EPIPE/ECONNRESET/EIO/interrupt, receive timeout/reset/EOF/garbage/interrupt; failures "
+            "outside the I/O steps: invalid per-request timeout (ValueError before the checkout), file-like body that "
+            "cannot be rewound at a retry / redirect hop (UnrewindableBodyError before the checkout), the wait between two "
+            "attempts raising (Retry-After: soon -> InvalidHeader, time.sleep interrupted)} x "
             "maxsize/block x retries/preload_content/release_conn x direct/forwarding/tunnelling pool x disposal "
-            "{read all, read k, read k+release, release, drain, close, with, drop+gc, stream}; quick: every 1-request "
+            "{read all, read k, read k+release, release, drain, close, with, drop+gc, stream}; quick: k streamed responses "
+            "outstanding + one request failing outside the I/O steps + maxsize more requests, every 1-request "
             "history with <=2 attempts on 7 pool configurations + sampled 2-request histories; thorough: <=3 requests x "
             "<=3 attempts sampled. non-trivial = at least one fault or non-200 outcome was consumed")
-    assumptions = ["faults are injected at I/O steps (connect / sendall / recv) only; an interrupt between two bytecodes "
-                   "is outside the model",
+    assumptions = ["faults are injected at I/O steps (connect / sendall / recv), before the checkout (invalid timeout "
+                   "argument, file-like body whose seek() fails) and in the wait between two attempts (Retry-After "
+                   "parsing, time.sleep); an interrupt between two bytecodes is outside the model",
+                   "a ValueError for a per-request timeout that Timeout rejects is the caller's argument error, not a "
+                   "failure of the request (the exception oracle accepts it only in histories that pass timeout=-1)",
                    "bytes arrive when the server sends them (no arrival after the checkout probe)",
                    "tunnelling-proxy pools are checked by the oracle only (the Lean model covers direct and forwarding pools)",
                    "response bodies are shorter than BufferedReader's 8192-byte buffer"]
@@ -789,21 +887,54 @@ class C01(Prop):
 
     def cases(self, rng, tier, escalate=False):
         deep = tier == "thorough" or escalate
-        # 1. every single-request history with <= 2 attempts, on every configuration, cycling disposal / request cfg
         i = 0
+        # 0. failures OUTSIDE the I/O steps of an attempt, while other responses are outstanding: `k` streamed
+        # responses hold their connections, then one request that fails before its checkout (invalid timeout; a
+        # file-like body that cannot be rewound at a retry / redirect hop) or between two attempts (the wait raises:
+        # unparsable Retry-After, interrupted sleep), then N more streamed requests (a slot too many shows as a
+        # connection too many on a block=True pool), then everything is disposed of.  (First, so that a loaded
+        # machine still gets through this family within the time budget.)
+        stream = dict(retries=1, preload=False, release=None)
+        special = []
+        for rc in (REQCFGS[3], REQCFGS[5]):
+            special.append(dict(rc, badtimeout=True, script=[BENIGN, BENIGN]))
+            for first in HOP_OUTCOMES:
+                for xkw in EXTRA_KW[:2]:
+                    special.append(dict(rc, retries=2, script=[first, "ok-unrewind", BENIGN], **xkw))
+            special.append(dict(rc, retries=2, body="file", bodypos=True, script=["ok-unrewind", BENIGN]))
+            for wf in WAIT_FAILURES:
+                special.append(dict(rc, retries=2, script=[wf, BENIGN, BENIGN]))
+                special.append(dict(rc, retries=2, body="file", script=["conn-refused", wf, BENIGN]))
         for cfg in CONFIGS_QUICK:
-            for a in NAMES:
-                for b in NAMES:
-                    rc = REQCFGS[i % len(REQCFGS)]
-                    d = DISPOSALS[(i // len(REQCFGS)) % len(DISPOSALS)]
+            n = cfg["maxsize"]
+            for k in range(0, n + 1):
+                for sp in special:
+                    ops = [dict(op="req", script=[BENIGN, BENIGN], **stream) for _ in range(k)]
+                    ops.append(dict(op="req", **sp))
+                    ops += [dict(op="req", script=[BENIGN, BENIGN], **stream) for _ in range(n)]
+                    d = DISPOSALS[i % 4]                 # read all / read k + release / release / drain
                     i += 1
-                    ops = [dict(op="req", script=[a, b, BENIGN], **rc), dict(op="disp", rid=0, how=d)]
-                    yield {"cfg": cfg, "ops": ops, "kind": "exh1"}
+                    ops += [dict(op="disp", rid=r, how=d) for r in range(k + 1 + n)]
+                    yield {"cfg": cfg, "ops": ops, "kind": "outside-io"}
+        # 1. every single-request history with <= 2 attempts, on every configuration, cycling disposal / request cfg:
+        # the whole square over the I/O outcomes; the outcomes whose wait fails (and the 3xx variants) paired with
+        # every I/O outcome as the other attempt
+        waits = ["503-ra-bad", "503-ra-intr", "302-ra", "302-ra-bad", "302-ra-intr", "303"]
+        plain = [n for n in NAMES if n not in waits and n != "ok-unrewind"]   # "ok-unrewind" needs a file-like body
+        pairs = [(a, b) for a in plain for b in plain] + [(a, b) for a in waits for b in plain] + \
+                [(a, b) for a in HOP_OUTCOMES for b in waits]
+        for cfg in CONFIGS_QUICK:
+            for a, b in pairs:
+                rc = REQCFGS[i % len(REQCFGS)]
+                d = DISPOSALS[(i // len(REQCFGS)) % len(DISPOSALS)]
+                i += 1
+                ops = [dict(op="req", script=[a, b, BENIGN], **rc), dict(op="disp", rid=0, how=d)]
+                yield {"cfg": cfg, "ops": ops, "kind": "exh1"}
         # 1b. the per-request keywords must survive the retry recursion: a failing first attempt followed by a
         # redirect reply, with redirect=False (the 3xx comes back, nothing is followed) and with redirect=True
-        redirs = [n for n in NAMES if n[:1] == "3"]
+        redirs = ["302", "302-close", "303"]
         for cfg in CONFIGS_QUICK[:5]:
-            for a in NAMES:
+            for a in plain:
                 if a == BENIGN or a in redirs:
                     continue
                 for b in redirs:
@@ -839,6 +970,8 @@ class C01(Prop):
                     rc["method"] = rng.choice(["POST", "HEAD"])
                 if rng.random() < 0.1:
                     rc["redirect"] = False
+                if rng.random() < 0.12:
+                    rc.update(rng.choice(EXTRA_KW))
                 script = [rng.choice(NAMES) if rng.random() < 0.7 else BENIGN for _ in range(natt)] + [BENIGN] * 2
                 ops.append(dict(op="req", script=script, **rc))
                 live.append(rid)
@@ -867,7 +1000,8 @@ class C01(Prop):
         return lines, out
 
     def nontrivial(self, case, impl_out):
-        return any(a != BENIGN for op in case["ops"] if op["op"] == "req" for a in op["script"][:1])
+        return any(op.get("badtimeout") or op.get("body") or any(a != BENIGN for a in op["script"][:1])
+                   for op in case["ops"] if op["op"] == "req")
 
     def shrink_candidates(self, case):
         ops = case["ops"]
